@@ -267,10 +267,12 @@ impl Core {
   }
 
   pub fn run_frame(&mut self) {
-    while self.memory.io.video.get_current_mode() != 1 {
-      self.update();
-    }
-    while self.memory.io.video.get_current_mode() == 1 {
+    // Run until the LCD has presented its next frame (entered VBLANK). The
+    // event itself is watched for: polling the LCD mode after each step can
+    // miss the whole VBLANK period when a single step (a long translated
+    // block) lasts longer than it does.
+    let frames = self.memory.io.video.get_frames_completed();
+    while self.memory.io.video.get_frames_completed() == frames {
       self.update();
     }
   }
